@@ -41,6 +41,10 @@ POOLS = {
         dict(alpha=dict(nv=2, maxl=2, maxar=2, classes=("D", "U"), raw=False, bad=False), keys="quick", fresh=True),
         dict(alpha=dict(nv=3, maxl=1, maxar=2, classes=("D", "O"), raw=True, bad=False, explicit_ops=False),
              keys="quick", fresh=False),
+        # twins: the last vertex is a distinct object with the first one's uid (what un-pickling next to the
+        # original gives); whatever is kept per uid instead of per object is shared by the two
+        dict(alpha=dict(nv=3, maxl=2, maxar=2, classes=("D",), raw=False, bad=False, none_ends=False,
+                        explicit_ops=False, twin=True), keys="quick", fresh=False),
         # universe pool: caching on from the start; links are only created; membership of the world's own
         # universe changes from either side; ("trav", i) runs every traversal and search within that
         # universe from vertex i (so whatever they cache is part of the state); the state invariant asks
@@ -105,7 +109,7 @@ class Sys:
             w.flag = True
             Vertex.NEIGHBOR_CACHING = True
             return w
-        return SWorld(self.alpha.nv)
+        return SWorld(self.alpha.nv, twin=getattr(self.alpha, "twin", False))
 
     def ops(self, w):
         if "pumped" in self.spec:
